@@ -72,6 +72,15 @@ def install_race_hook(ctx):
         elif not write and held is None:
             st.user.setdefault("race", []).append("%s read while sandbox_list_lock is not held" % target)
     eng.access_hook = hook
+    ctx._lock_addr = lock_addr
+    old_log = eng.stubs["env_log"]
+
+    def env_log(e, st, args, ins):
+        r = old_log(e, st, args, ins)
+        t = symex.simp(args[0])
+        st.events.append(("log", t.as_long() if symex.is_conc(t) else -1))
+        return r
+    eng.stubs["env_log"] = env_log
 
 
 def arm(ctx):
@@ -92,12 +101,39 @@ def report(ctx, paths):
             ctx.discharged += 1
 
 
+def publication_order(ctx, paths, ncreate):
+    """a sandbox must be unpublished from the registry before its backend is torn down (and published only after the
+    backend is up): otherwise another thread's lookup can resolve addresses to a sandbox whose memory is gone"""
+    for q in paths:
+        sections = 0
+        destroys = 0
+        bad = None
+        for e in q.events:
+            if e[0] == "lock" and e[1].endswith("unlock"):
+                a = e[2]
+                if symex.is_conc(a) and a.as_long() == ctx._lock_addr:
+                    sections += 1
+            elif e[0] == "log" and e[1] == 0x202:       # backend destroy (BM_TAG_DESTROY)
+                destroys += 1
+                if sections < ncreate + destroys:
+                    bad = "backend destroy #%d ran while the sandbox was still published in sandbox_list" % destroys
+                    break
+        ctx.obligations += 1
+        if bad:
+            r, m = ctx.eng.check_sat(q.pc)
+            ctx.violations.append({"check": ctx.name, "kernel": q.kernel, "violated": bad, "inputs": {k: hex(v) for k, v in ctx._inputs(m).items()} if m else {},
+                                   "outcome": q.status, "replayed": None})
+        else:
+            ctx.discharged += 1
+
+
 def check_bm_discipline(ctx, k):
     install_race_hook(ctx)
     arm(ctx)
     C04.check_bm(ctx, k)               # also proves per-sandbox results with other sandboxes live (non-interference)
     # C04.check_bm ran the kernel through ctx.run: collect the race reports of those paths
     report(ctx, ctx._c18_paths)
+    publication_order(ctx, ctx._c18_paths, 3)
 
 
 def check_nested_discipline(ctx):
